@@ -71,6 +71,16 @@ def canon(o):
     return o
 
 
+def has_nan(o):
+    if isinstance(o, float):
+        return o != o
+    if isinstance(o, (list, tuple)):
+        return any(has_nan(x) for x in o)
+    if isinstance(o, dict):
+        return any(has_nan(x) for x in o.values())
+    return False
+
+
 def same(a, b):
     """field-wise equality that also distinguishes True/1, 0/0.0 and NaN==NaN (value AND type)"""
     if type(a) != type(b):
@@ -199,7 +209,7 @@ class JsonStream(Stream):
             'non-trivial = value contains a container or an escaped string; distinct by value')
 
     def gen(self, rng, tier):
-        n = 250 if tier == 'quick' else 4000
+        n = 250 if tier == 'quick' else 2500
         out = []
         for i in range(n):
             v = gen_value(rng, 3, True, surrogates=(i % 5 == 0))
@@ -304,6 +314,8 @@ def classes():
 def gen_field_value(rng, cname, f, valid=True):
     """a value for field f of class cname; valid=True: one the class accepts"""
     if not valid:
+        if cname == 'Labels':      # type-invalid only: which strings the label validators accept is C16's subject
+            return rng.choice([-1, 1.5, None, {'a': 1}, True, 0, -0.5])
         return rng.choice([-1, 'x', 1.5, None, [1], {'a': 1}, True, 0, -0.5, [], ''])
     if cname == 'Capacities':
         return rng.choice([0, 0, 1, 2, 5, 64, 1000, 10 ** 30, 2 ** 63, 4096, 1, 7, None, True, False])
@@ -369,7 +381,7 @@ class FieldStream(Stream):
         return self._fresh[i]
 
     def gen(self, rng, tier):
-        n = 600 if tier == 'quick' else 10000
+        n = 600 if tier == 'quick' else 6000
         cl = classes()
         out = []
         for _ in range(n):
@@ -601,7 +613,7 @@ class MiscStream(Stream):
 
     # ---------------- generation
     def gen(self, rng, tier):
-        n = 500 if tier == 'quick' else 8000
+        n = 500 if tier == 'quick' else 5000
         out = []
         for _ in range(n):
             k = rng.randrange(5)
@@ -803,13 +815,15 @@ class MiscStream(Stream):
         o = {'text': x.json}
         try:
             o['data'] = loads_tok(x.json)
-            o['data_eq'] = x.data == json.loads(x.json) or x.data != x.data
+            o['data_eq'] = json.dumps(x.data, sort_keys=True) == json.dumps(json.loads(x.json), sort_keys=True)
         except Exception as e:
             o['data'] = err(e)
         try:
             y = cls(x.json)
             o['again'] = y.json
-            o['eq'] = bool(y == x) and (y.data == x.data or x.data != x.data)
+            # value equality through a canonical text, so that a NaN inside the data does not count as a difference
+            o['eq'] = (json.dumps(y.data, sort_keys=True) == json.dumps(x.data, sort_keys=True) and type(y) is type(x)) \
+                if has_nan(x.data) else bool(y == x)
         except Exception as e:
             o['again'] = err(e)
             o['eq'] = False
@@ -1136,7 +1150,7 @@ class MaintStream(Stream):
             'ill-typed entry fields; non-trivial = at least one entry present at the end; distinct by case')
 
     def gen(self, rng, tier):
-        n = 300 if tier == 'quick' else 5000
+        n = 300 if tier == 'quick' else 3000
         out = []
         for _ in range(n):
             ops = []
